@@ -57,6 +57,15 @@ def apply_op(G, op):
                     return G.rm(x) if sum(map(ord, op[1])) % 2 else x.disconnect()
             raise g.NotFoundError('no line is written as %r' % op[1])
         return impl.outcome(f)
+    if k == 'rmlast':
+        # removal by instance of the LAST line written as the given text (two records may be written alike: containments,
+        # fragments, edges and gaps without identifier); for the text-level model it is the same step as 'rmline'
+        def f2():
+            m = [x for x in G.lines if x.record_type != 'H' and not x.virtual and str(x) == op[1]]
+            if not m:
+                raise g.NotFoundError('no line is written as %r' % op[1])
+            return G.rm(m[-1]) if sum(map(ord, op[1])) % 2 else m[-1].disconnect()
+        return impl.outcome(f2)
     raise ValueError(k)
 
 
@@ -65,7 +74,7 @@ def op_term(op):
         return '(OAdd %s)' % cstr(op[1])
     if op[0] == 'rm':
         return '(ORm %s)' % cstr(op[1])
-    if op[0] == 'rmline':
+    if op[0] in ('rmline', 'rmlast'):
         return '(ORmLine %s)' % cstr(op[1])
     return '(ORename %s %s)' % (cstr(op[1]), cstr(op[2]))
 
